@@ -100,6 +100,10 @@ func runChild(o hx.Opts, scens []Scenario, hangMs int) (ended []RawObs, inflight
 	os.RemoveAll(dir)
 	os.MkdirAll(dir, 0o755)
 	defer os.RemoveAll(filepath.Join(dir, "badger.db"))
+	if templateDir != "" && templateDir != dir {
+		// host keys and certificates are generated once (template child) and reused
+		copyTree(filepath.Join(templateDir, "badger.db"), filepath.Join(dir, "badger.db"))
+	}
 	jb, _ := json.Marshal(Job{DataDir: dir, Scenarios: scens, HangMs: hangMs})
 	jobPath := filepath.Join(dir, "job.json")
 	os.WriteFile(jobPath, jb, 0o644)
@@ -189,6 +193,48 @@ loop:
 	return
 }
 
+var templateDir string
+
+func copyTree(src, dst string) {
+	ents, err := os.ReadDir(src)
+	if err != nil {
+		return
+	}
+	os.MkdirAll(dst, 0o755)
+	for _, e := range ents {
+		if e.IsDir() {
+			copyTree(filepath.Join(src, e.Name()), filepath.Join(dst, e.Name()))
+			continue
+		}
+		if b, err := os.ReadFile(filepath.Join(src, e.Name())); err == nil {
+			os.WriteFile(filepath.Join(dst, e.Name()), b, 0o644)
+		}
+	}
+}
+
+// makeTemplate runs a child without scenarios: its storage then holds the generated keys
+func makeTemplate(o hx.Opts) {
+	dir := filepath.Join(o.Out, "template")
+	os.RemoveAll(dir)
+	os.MkdirAll(dir, 0o755)
+	jb, _ := json.Marshal(Job{DataDir: dir, HangMs: 700})
+	jobPath := filepath.Join(dir, "job.json")
+	os.WriteFile(jobPath, jb, 0o644)
+	pr, pw, err := os.Pipe()
+	if err != nil {
+		return
+	}
+	cmd := exec.Command(os.Args[0], "child", jobPath)
+	cmd.ExtraFiles = []*os.File{pw}
+	cmd.Env = append(os.Environ(), "GOTRACEBACK=single", "GOMAXPROCS=4")
+	err = cmd.Run()
+	pw.Close()
+	pr.Close()
+	if err == nil {
+		templateDir = dir
+	}
+}
+
 func toObs(ro RawObs) Obs {
 	return Obs{Conns: ro.Conns, Finished: ro.Finished, Events: ro.FatalEvts, Growing: ro.Growing, Probe: ro.Probe, Replied: ro.Replied, HeapMB: ro.HeapMB, Ms: ro.Ms}
 }
@@ -250,7 +296,7 @@ func runShard(o hx.Opts, scens []Scenario, hangMs int) []result {
 }
 
 var svcCode = map[string]int{}
-var streamCode = map[string]int{"dialogue": 1, "truncated": 2, "mutated": 3, "raw": 4, "ssh": 6, "tftp-load": 8, "ber": 9, "ber-fuzz": 9}
+var streamCode = map[string]int{"dialogue": 1, "truncated": 2, "mutated": 3, "raw": 4, "ssh": 6, "tftp-load": 8, "ber": 9, "ber-fuzz": 9, "size": 10, "ftp-abandon": 11, "ftp-abandon-timeout": 11}
 var sshTypeCode = map[string]int{"env": 1, "exec": 2, "shell": 3, "pty-req": 4, "subsystem": 5, "tcpip-forward": 6}
 var sshChanCode = map[string]int{"": 0, "session": 0, "direct-tcpip": 1, "forwarded-tcpip": 2}
 
@@ -324,15 +370,25 @@ func main() {
 		if o.Tier != "quick" {
 			cp = append(cp, deepScenarios()...)
 		}
-		var calm []Scenario
+		var calm, hot []Scenario
 		for _, sc := range cp {
 			if strings.HasPrefix(sc.Kind, "corpus-cs") || strings.HasPrefix(sc.Kind, "corpus-redis-empty") || strings.HasPrefix(sc.Kind, "corpus-smtp") ||
 				strings.HasPrefix(sc.Kind, "corpus-adb") || strings.HasPrefix(sc.Kind, "corpus-ftp") || sc.Kind == "corpus-ipp-unknown-value-tag" ||
-				sc.Kind == "corpus-ipp-attribute-then-eof" || sc.Kind == "corpus-ldap-negative-length" || sc.Kind == "corpus-snmp-length-2^56" {
+				sc.Kind == "corpus-ipp-attribute-then-eof" || sc.Kind == "corpus-ftp-port-too-few-numbers" || sc.Kind == "corpus-ftp-eprt-too-few-fields" || sc.Kind == "corpus-ldap-negative-length" || sc.Kind == "corpus-snmp-length-2^56" {
 				calm = append(calm, sc)
 			} else {
-				shards = append(shards, []Scenario{sc})
+				hot = append(hot, sc)
 			}
+		}
+		// former process-fatal witnesses: a few per child (a death restarts the child and is
+		// re-run alone to confirm the attribution)
+		for len(hot) > 0 {
+			n := 4
+			if n > len(hot) {
+				n = len(hot)
+			}
+			shards = append(shards, hot[:n])
+			hot = hot[n:]
 		}
 		shards = append(shards, calm)
 		for _, d := range svcDefs {
@@ -351,15 +407,46 @@ func main() {
 		if o.Tier != "quick" {
 			nload = 12
 		}
-		for _, sc := range tftpLoadScenarios(r, nload) {
-			shards = append(shards, []Scenario{sc})
+		shards = append(shards, tftpLoadScenarios(r, nload))
+		// size as a dimension: long runs of each service's cheapest token (one shard per service)
+		ntok, nbytes := 100000, 1<<20
+		if o.Tier != "quick" {
+			ntok, nbytes = 2000000, 16<<20
+		}
+		bySvc := map[string][]Scenario{}
+		for _, sc := range sizeScenarios(ntok, nbytes) {
+			bySvc[sc.Svc] = append(bySvc[sc.Svc], sc)
+		}
+		for _, d := range svcDefs {
+			sz := bySvc[d.Name]
+			for len(sz) > 0 { // at most 4 long runs per child
+				n := 4
+				if n > len(sz) {
+					n = len(sz)
+				}
+				shards = append(shards, sz[:n])
+				sz = sz[n:]
+			}
+		}
+		// abandoned resources
+		ab := ftpAbandonScenarios(o.Tier != "quick")
+		for len(ab) > 0 {
+			n := 10
+			if ab[0].HangMs > 0 {
+				n = 1 // the 30 s timeout cases run side by side
+			}
+			if n > len(ab) {
+				n = len(ab)
+			}
+			shards = append(shards, ab[:n])
+			ab = ab[n:]
 		}
 		bers := berScenarios()
 		if o.Tier != "quick" {
 			bers = append(bers, berFuzzScenarios(r, 1500)...)
 		}
 		for len(bers) > 0 {
-			n := 60
+			n := 120
 			if n > len(bers) {
 				n = len(bers)
 			}
@@ -390,17 +477,41 @@ func main() {
 	for i := range order {
 		order[i] = i
 	}
-	sort.SliceStable(order, func(a, b int) bool { return len(shards[order[a]]) > len(shards[order[b]]) })
+	cost := func(sh []Scenario) int { // rough milliseconds, only to start the heavy shards first
+		c := 1000
+		for _, sc := range sh {
+			switch {
+			case sc.Kind == "size":
+				c += 1500
+			case sc.Linger > 1000:
+				c += sc.Linger
+			case sc.Kind == "ssh" || sc.Linger > 0:
+				c += 100 + sc.Linger
+			case sc.Rounds > 0:
+				c += 500
+			default:
+				c += 6
+			}
+		}
+		return c
+	}
+	sort.SliceStable(order, func(a, b int) bool { return cost(shards[order[a]]) > cost(shards[order[b]]) })
+	makeTemplate(o)
+	tStart := time.Now()
 	results := make([][]result, len(shards))
 	var wg sync.WaitGroup
-	sem := make(chan struct{}, 12)
+	sem := make(chan struct{}, 14)
 	for _, i := range order {
 		wg.Add(1)
 		sem <- struct{}{}
 		go func(i int) {
 			defer wg.Done()
 			defer func() { <-sem }()
+			t0 := time.Now()
 			results[i] = runShard(o, shards[i], hangMs)
+			if os.Getenv("C01_TIMING") != "" {
+				fmt.Fprintf(os.Stderr, "shard %d (%s/%s x%d): %d ms, started at %d ms\n", i, shards[i][0].Svc, shards[i][0].Kind, len(shards[i]), time.Since(t0)/time.Millisecond, t0.Sub(tStart)/time.Millisecond)
+			}
 		}(i)
 	}
 	wg.Wait()
